@@ -1855,6 +1855,21 @@ class StateEngine(object):
             """
 
             """
+            This function is called via a timeout (zero, or the retry delay)
+            some time after the Task State event was accepted in notify(), so
+            check again that the Branch or Iteration that this Task belongs to
+            has not been terminated in the meantime by the failure of a peer.
+            Otherwise the Task would still be invoked after its Map/Parallel
+            state (and possibly the whole execution) had already failed and
+            its eventual result would be treated as a fresh Branch result.
+            """
+            if self.branch_has_terminated(
+                state_type, context, id,
+                ASL.get("TimeoutSeconds", self.execution_ttl)
+            ):
+                return
+
+            """
             It's important for the on_response function to be nested as we want
             the event, state and id to be wrapped in its closure, to be used when
             the service integrated to the Task *actually* returns its result.
